@@ -73,6 +73,9 @@ func newInstance(c Cfg) *plenc.Plenc {
 	if c.Marker == "plain" || c.Marker == "both" {
 		p.RegisterCodec(reflect.TypeOf(abs.Marked(0)), markerCodec{})
 	}
+	if c.Marker == "kind" {
+		p.RegisterCodec(reflect.TypeOf(int32(0)), markerCodec{})
+	}
 	if c.Marker == "tagged" || c.Marker == "both" {
 		p.RegisterCodecWithTag(reflect.TypeOf(abs.Marked(0)), "mk", markerCodec{})
 	}
